@@ -53,6 +53,11 @@ theorem resume_from_error_state_sound {G : EarleyProto.Grammar} {T : LRProto.Tab
     v.2 = consumed ++ rest ∧ EarleyProto.DerivesSeq G [EarleyProto.Sym.nt s0] (consumed ++ rest) :=
   LRProto.resume_from_error_sound hT eof fuel fuel' t cfg consumed rest v hinv hacc
 
+/-- **`accepts()` is exact.** Trial feeding (on copies) of the terminals in `choices()` yields exactly the terminals whose token can be fed. -/
+theorem accepts_is_exact (T : LRProto.Table) (terms : List Nat) (eof fuel : Nat) (cfg : LRProto.Config) (t : Nat) (ht : t ∈ terms) :
+    t ∈ LRProto.acceptsOf T terms eof fuel cfg ↔ LRProto.feedOK T eof fuel cfg t = true :=
+  LRProto.accepts_exact T terms eof fuel cfg t ht
+
 -- non-vacuity: the aliased case really differs (a fork that still reaches the mutated list sees the change)
 example : den (appendInPlace (fun _ => [HV.tok 0 0]) 0 [HV.tok 1 1]) 1 (HV.tree 7 0) = some (Val.tree 7 [Val.tok 0 0, Val.tok 1 1]) := by rfl
 example : den (fun _ => [HV.tok 0 0]) 1 (HV.tree 7 0) = some (Val.tree 7 [Val.tok 0 0]) := by rfl
